@@ -260,6 +260,48 @@ PROPS["C14"] = drive_plan("exploration", "c14", ["--sizes", "1,2,30,120"], ["--s
                                        "embeddings are unique per put, so a self-query must return its own frame at distance <= 1e-6"])
 
 
+PROPS["C24"] = drive_plan("exploration", "c24", ["--cases", 12], ["--cases", 250],
+                          assumptions=["capacity is compared with absolute payload offsets (the code's and the repository test's definition)",
+                                       "a history in which the log grows is re-baselined as inconclusive rather than judged"])
+PROPS["C25"] = drive_plan("exploration", "c25", ["--cases", 12], ["--cases", 300],
+                          assumptions=["signed-ticket acceptance is driven with a harness key pair installed through the cfg(memvid_verif) key override; without the override the embedded key must reject every harness signature",
+                                       "unbind_memory (which resets the sequence) is outside the property's quantifier and is not driven"])
+
+
+PROPS["C26"] = drive_plan("exploration", "c26", ["--histories", 5], ["--histories", 120],
+                          assumptions=["a card is matched to its put through a unique name planted in the text; puts without an extractable triplet must produce no record"])
+
+
+def _c27_pure(pid, tier, seed, scratch, bindir):
+    mvpure = os.path.join(bindir, "mvpure")
+    reports, notes = C.run_sharded(mvpure, "c27a", ["--cases", 4000 if tier == "quick" else 80000], 8 if tier == "quick" else 16, seed, scratch)
+    if tier == "thorough":
+        r, n = miri_run("c27a", ["--cases", 40], [seed * 100 + i for i in range(8)], scratch)
+        reports += r
+        notes += n
+    return reports, notes
+
+
+PROPS["C27"] = drive_plan("exploration", "c27b", ["--histories", 6], ["--histories", 150], custom=_c27_pure,
+                          assumptions=["temporal part: ties between cards with the same effective time are not ordered by the reference",
+                                       "persistence part compares every public card field and the Debug rendering of every mesh node and edge"])
+
+
+_SEARCH_ASSUME = ["'searchable text' = the frame's stored search text (which includes uri/title/tag augmentation), else its content; the reference evaluator is independent of Tantivy and of the crate's evaluator",
+                  "a response holds snippets, not frames: where a frame has several occurrences, completeness is judged over the exhaustively paginated stream"]
+PROPS["C09"] = drive_plan("exploration", "c09", ["--corpora", 3, "--max-docs", 80], ["--corpora", 40, "--max-docs", 200], assumptions=_SEARCH_ASSUME)
+PROPS["C10"] = drive_plan("exploration", "c10", ["--corpora", 2, "--queries", 40, "--max-docs", 40], ["--corpora", 30, "--queries", 150, "--max-docs", 120], assumptions=_SEARCH_ASSUME + [
+    "a search that returns an error is counted, not judged (C10 is about hits)", "scope/uri filters are checked case-insensitively (the weaker reading)"])
+PROPS["C11"] = drive_plan("exploration", "c11", ["--corpora", 2, "--queries", 40, "--max-docs", 40], ["--corpora", 30, "--queries", 150, "--max-docs", 120], assumptions=_SEARCH_ASSUME + [
+    "'never adds a hit' is judged on frames: a filtered search may cut snippets differently but must not name a frame the unfiltered stream lacks"])
+PROPS["C12"] = drive_plan("exploration", "c12", ["--corpora", 2, "--queries", 80, "--max-docs", 30], ["--corpora", 40, "--queries", 300, "--max-docs", 60], assumptions=[
+    "reference policy written from the ACL documentation: deny unless metadata is complete and valid, tenant matches (trimmed, JSON-unquoted, case-insensitive) and the frame is public or lists the caller",
+    "ask is driven in lexical, context-only mode (no model files offline)"])
+PROPS["C16"] = drive_plan("exploration", "c16", ["--corpora", 2, "--queries", 20, "--max-docs", 80], ["--corpora", 30, "--queries", 80, "--max-docs", 200], assumptions=_SEARCH_ASSUME)
+PROPS["C28"] = drive_plan("exploration", "c28", ["--corpora", 2, "--max-docs", 30], ["--corpora", 40, "--max-docs", 100], quick_shards=8, assumptions=_SEARCH_ASSUME + [
+    "lexical results are compared as sets of (frame, range): BM25 statistics legitimately differ between segment layouts; vector and timeline results are compared as sequences"])
+
+
 def _c19_sidecar(pid, tier, seed, scratch, bindir):
     return C.run_sharded(os.path.join(bindir, "mvdrive"), "sidecar", ["--rounds", 2 if tier == "quick" else 20], 2 if tier == "quick" else 8, seed, scratch)
 
